@@ -463,6 +463,53 @@ fn dispatch(family: &str, ty: &str, op: &str, aux: &[&str], operands: &[Vec<&str
     panic!("unknown family {family}");
 }
 
+/// serde_json round trip: the restored value, then the keys of the JSON text in order of appearance
+fn serde_rt<D>(operands: &[Vec<&str>]) -> Vec<String>
+where
+    D: Probe + serde::Serialize + serde::de::DeserializeOwned,
+{
+    let x = D::rd(&mut Toks { v: &operands[0], i: 0 });
+    let js = serde_json::to_string(&x).unwrap();
+    let y: D = serde_json::from_str(&js).unwrap();
+    let mut out = vec![];
+    y.wr(&mut out);
+    let mut keys: Vec<String> = vec![];
+    let b = js.as_bytes();
+    let mut i = 0;
+    while i < b.len() {
+        if b[i] == b'"' {
+            let j = i + 1 + js[i + 1..].find('"').unwrap();
+            if j + 1 < b.len() && b[j + 1] == b':' {
+                keys.push(js[i + 1..j].to_string());
+            }
+            i = j + 1;
+        } else {
+            i += 1;
+        }
+    }
+    out.push(format!("k{}", hex_str(&keys.join(","))));
+    out
+}
+
+fn dispatch_serde(ty: &str, operands: &[Vec<&str>]) -> Vec<String> {
+    macro_rules! d {
+        ($($name:expr => $t:ty;)*) => {
+            match ty {
+                $($name => return serde_rt::<$t>(operands),)*
+                _ => panic!("serde: unknown type {ty}"),
+            }
+        };
+    }
+    d! {
+        "f64" => f64; "f32" => f32;
+        "Dual64" => Dual64; "Dual2_64" => Dual2_64; "Dual3_64" => Dual3_64; "HyperDual64" => HyperDual64;
+        "HyperHyperDual64" => HyperHyperDual64; "Dual32" => Dual32; "Dual2_32" => Dual2_32; "Dual3_32" => Dual3_32;
+        "HyperDual32" => HyperDual32; "Dual_Dual64" => DD; "Dual_Dual_Dual64" => DDD; "Dual2_Dual64" => Dual2<Dual64, f64>;
+        "Dual_Dual2_64" => Dual<Dual2_64, f64>; "Dual3_Dual64" => Dual3<Dual64, f64>; "HyperDual_Dual64" => HyperDual<Dual64, f64>;
+        "Dual_HyperDual64" => Dual<HyperDual64, f64>; "Dual2_Dual2_64" => Dual2<Dual2_64, f64>;
+    }
+}
+
 fn main() {
     std::panic::set_hook(Box::new(|_| {}));
     let args: Vec<String> = std::env::args().collect();
@@ -483,7 +530,13 @@ fn main() {
         let head: Vec<&str> = sections.next().unwrap().split_whitespace().collect();
         let id = head[0];
         let operands: Vec<Vec<&str>> = sections.map(|s| s.split_whitespace().collect()).collect();
-        let res = std::panic::catch_unwind(|| dispatch(head[1], head[2], head[3], &head[4..], &operands));
+        let res = std::panic::catch_unwind(|| {
+            if head[1] == "serde" {
+                dispatch_serde(head[2], &operands)
+            } else {
+                dispatch(head[1], head[2], head[3], &head[4..], &operands)
+            }
+        });
         match res {
             Ok(toks) => writeln!(w, "{} ok {}", id, toks.join(" ")).unwrap(),
             Err(_) => writeln!(w, "{} panic", id).unwrap(),
